@@ -140,6 +140,87 @@ impl<'ast> syn::visit::Visit<'ast> for ImplCollector {
     }
 }
 
+/// Collects every path's first segment and every macro name of an expansion (for C15: which names does the
+/// generated code reach without going through `derive_more::` / `::`?).
+struct RefCollector {
+    refs: std::collections::BTreeSet<(String, String, String)>,
+    bound: std::collections::BTreeSet<String>,
+}
+impl RefCollector {
+    fn path(&mut self, kind: &str, p: &syn::Path) {
+        use quote::ToTokens;
+        if p.leading_colon.is_some() {
+            return;
+        }
+        let first = p.segments.first().unwrap().ident.to_string();
+        self.refs.insert((kind.to_string(), first, p.to_token_stream().to_string()));
+    }
+}
+impl<'ast> syn::visit::Visit<'ast> for RefCollector {
+    fn visit_expr_path(&mut self, i: &'ast syn::ExprPath) {
+        if i.qself.is_none() { self.path("expr", &i.path); }
+        syn::visit::visit_expr_path(self, i);
+    }
+    fn visit_type_path(&mut self, i: &'ast syn::TypePath) {
+        if i.qself.is_none() { self.path("type", &i.path); }
+        syn::visit::visit_type_path(self, i);
+    }
+    fn visit_pat_tuple_struct(&mut self, i: &'ast syn::PatTupleStruct) {
+        if i.qself.is_none() { self.path("pat", &i.path); }
+        syn::visit::visit_pat_tuple_struct(self, i);
+    }
+    fn visit_pat_struct(&mut self, i: &'ast syn::PatStruct) {
+        if i.qself.is_none() { self.path("pat", &i.path); }
+        syn::visit::visit_pat_struct(self, i);
+    }
+    fn visit_expr_struct(&mut self, i: &'ast syn::ExprStruct) {
+        if i.qself.is_none() { self.path("expr", &i.path); }
+        syn::visit::visit_expr_struct(self, i);
+    }
+    fn visit_trait_bound(&mut self, i: &'ast syn::TraitBound) {
+        self.path("bound", &i.path);
+        syn::visit::visit_trait_bound(self, i);
+    }
+    fn visit_item_impl(&mut self, i: &'ast syn::ItemImpl) {
+        if let Some((_, p, _)) = &i.trait_ { self.path("trait", p); }
+        syn::visit::visit_item_impl(self, i);
+    }
+    fn visit_item_use(&mut self, i: &'ast syn::ItemUse) {
+        use quote::ToTokens;
+        if i.leading_colon.is_none() {
+            if let syn::UseTree::Path(p) = &i.tree {
+                self.refs.insert(("use".into(), p.ident.to_string(), i.tree.to_token_stream().to_string()));
+            }
+        }
+    }
+    fn visit_generics(&mut self, i: &'ast syn::Generics) {
+        // type / const parameters introduced by the expansion itself (impl or fn generics)
+        for p in &i.params {
+            match p {
+                syn::GenericParam::Type(t) => { self.bound.insert(t.ident.to_string()); }
+                syn::GenericParam::Const(c) => { self.bound.insert(c.ident.to_string()); }
+                _ => {}
+            }
+        }
+        syn::visit::visit_generics(self, i);
+    }
+    fn visit_pat_ident(&mut self, i: &'ast syn::PatIdent) {
+        self.bound.insert(i.ident.to_string());
+        syn::visit::visit_pat_ident(self, i);
+    }
+    fn visit_macro(&mut self, i: &'ast syn::Macro) {
+        use quote::ToTokens;
+        if i.path.leading_colon.is_none() {
+            let first = i.path.segments.first().unwrap().ident.to_string();
+            self.refs.insert(("macro".into(), first, i.path.to_token_stream().to_string()));
+        }
+        // look inside the macro arguments too (write!/format_args!/matches! bodies are expressions)
+        if let Ok(args) = i.parse_body_with(syn::punctuated::Punctuated::<syn::Expr, syn::Token![,]>::parse_terminated) {
+            for a in args.iter() { syn::visit::visit_expr(self, a); }
+        }
+    }
+}
+
 fn do_expand(case: &Value) -> Value {
     let derive = case["derive"].as_str().unwrap_or("").to_string();
     let item = case["item"].as_str().unwrap_or("").to_string();
@@ -159,7 +240,11 @@ fn do_expand(case: &Value) -> Value {
                 match parsed {
                     Ok(f) => {
                         syn::visit::Visit::visit_file(&mut coll, &f);
-                        let mut v = json!({"outcome": "ok", "impls": coll.impls, "n_items": f.items.len()});
+                        let mut rc = RefCollector { refs: Default::default(), bound: Default::default() };
+                        syn::visit::Visit::visit_file(&mut rc, &f);
+                        let refs: Vec<Value> = rc.refs.iter().map(|(k, a, b)| json!([k, a, b])).collect();
+                        let bound: Vec<&String> = rc.bound.iter().collect();
+                        let mut v = json!({"outcome": "ok", "impls": coll.impls, "n_items": f.items.len(), "refs": refs, "bound": bound});
                         if want_tokens {
                             v["tokens"] = json!(text);
                         }
